@@ -28,6 +28,7 @@ func (w *World) registerMoreIntrinsics() {
 	w.registerSessionCodecIntrinsics()
 	w.registerSortQueryIntrinsics()
 	w.registerJSONIntrinsics()
+	w.registerJSONDecodeIntrinsics()
 	w.registerEndpointIntrinsics()
 	w.registerRedisIntrinsics()
 	terms := func(e *Exec, v Value) []*Term {
